@@ -247,6 +247,13 @@ static bool match_cause(proc *pr, int64_t ret, int want_kind, int want_ref)
         if (best->kind == CK_PREEMPT) PROBE("c04.preempt_notice_delivered");
         return true;
     }
+    /* a resume that the harness sent to the process after it had been stopped in its yield: if the process has been restarted since
+     * and yields again in the same instant, the resume finds a yielding process and is delivered - to the process, if not to the
+     * yield it was once meant for */
+    if (pr->op == OP_YIELD && want_kind == 0 && pr->late_resume_n > 0 && pr->late_resume_t == now)
+        for (uint64_t k = 0; k < pr->late_resume_n && k < 4; k++) if (pr->late_sig[k] == ret) {
+            pr->late_sig[k] = 0; PROBE("c04.late_resume_reached_the_restarted_process"); return true;
+        }
     /* classify the failure */
     const char *sig = "unknown-signal";
     for (int i = 0; i < pr->ncs; i++) {
